@@ -25,7 +25,7 @@ var reDiag = regexp.MustCompile(`^(main|lib|lib2)\.rb:::[0-9]+:::`)
 var reHint = regexp.MustCompile(`^@(main|lib|lib2)\.rb:::[0-9]+:::`)
 
 // withPreload adds a .ti-loader.json and one or two preloaded files to a disk image.
-func withPreload(c *Ctx, r *Rng, files map[string][]byte) {
+func withPreload(c *Ctx, r *Rng, files map[string][]byte, twinBias bool) {
 	names := []string{"lib.rb"}
 	if r.Chance(1, 3) {
 		names = append(names, "lib2.rb")
@@ -38,6 +38,15 @@ func withPreload(c *Ctx, r *Rng, files map[string][]byte) {
 			continue
 		}
 		src, _ := pickProgram(c, r, false)
+		if tgt, ok := files[target]; ok && (r.Chance(1, 3) || (twinBias && r.Chance(1, 2))) {
+			// the preloaded file is a sibling of the target: the same program with its literals
+			// resized and a few tokens changed, so the same constructs sit on the same rows of
+			// both files (whatever the analysis remembers per row or per name meets its twin)
+			src = resizeLiterals(tgt, r)
+			if r.Chance(1, 2) {
+				src = MutateTokens(src, c.Vocab, r, 1+r.Intn(3))
+			}
+		}
 		if r.Chance(1, 4) {
 			src, _ = ApplyFault("F1-torn", src, nil, r)
 		}
@@ -47,6 +56,25 @@ func withPreload(c *Ctx, r *Rng, files map[string][]byte) {
 }
 
 var reDigits = regexp.MustCompile(`[0-9]+`)
+
+var reFlatList = regexp.MustCompile(`\[[^\[\]\n]*,[^\[\]\n]*\]`)
+
+// resizeLiterals shortens or lengthens the flat bracketed lists of a program (array literals,
+// argument lists in brackets): same shape, same rows, other sizes.
+func resizeLiterals(src []byte, r *Rng) []byte {
+	return reFlatList.ReplaceAllFunc(src, func(m []byte) []byte {
+		elems := strings.Split(string(m[1:len(m)-1]), ",")
+		switch r.Intn(3) {
+		case 0:
+			elems = elems[:1+r.Intn(len(elems))]
+		case 1:
+			for k := r.Range(1, 30); k > 0; k-- {
+				elems = append(elems, elems[r.Intn(len(elems))])
+			}
+		}
+		return []byte("[" + strings.Join(elems, ",") + "]")
+	})
+}
 
 func lineShape(l string) string {
 	l = strings.ReplaceAll(l, target, "F")
@@ -500,8 +528,13 @@ func (o *tiInput) Make(c *Ctx, i int) *Case {
 	if r.Chance(1, 4) {
 		st.Sched = "canon"
 	}
-	if i >= len(o.sweep) && r.Chance(1, 12) {
-		withPreload(c, r, st.Files)
+	shaped := false
+	switch cs.Meta["origin"] {
+	case "hierarchy", "big-literals", "alias-chains", "cyclic", "retyping":
+		shaped = true
+	}
+	if i >= len(o.sweep) && (r.Chance(1, 12) || (shaped && r.Chance(1, 4))) {
+		withPreload(c, r, st.Files, shaped)
 		cs.Faults = append(cs.Faults, "preload")
 	}
 	cs.Steps = []Step{st}
